@@ -1,6 +1,9 @@
 package strutil
 
-import "strings"
+import (
+	"strings"
+	"unicode/utf8"
+)
 
 // HasSubseq determines whether s has t as its subsequence. A string t is a
 // subsequence of a string s if and only if there is a possible sequence of
@@ -11,7 +14,11 @@ func HasSubseq(s, t string) bool {
 		if i == -1 {
 			return false
 		}
-		s = s[i+len(string(p)):]
+		// Skip the rune that was found. It is not necessarily as long as p:
+		// an invalid byte in t is seen as U+FFFD and matches an invalid byte
+		// in s, which is 1 byte long.
+		_, width := utf8.DecodeRuneInString(s[i:])
+		s = s[i+width:]
 	}
 	return true
 }
